@@ -1,7 +1,7 @@
 (* API entries for the C05 / C13 / C20 models (see Extract/ApiCommon.v for the conventions). *)
 From Coq Require Import NArith ZArith List String.
 From BU Require Import Base.Exn Base.Val Base.Bytes Gen.Consts Gen.SerbipConsts Extract.ApiCommon.
-From BU Require Model.Base58 Model.Bip32Data Model.Bip32Ser Model.Slip32 Model.WifCodec Model.Bip38.
+From BU Require Model.Base58 Model.Bip32Data Model.Bip32Ser Model.Slip32 Model.WifCodec Model.Bip38 Model.Electrum Model.Brainwallet Model.SplToken.
 Import ListNotations.
 Open Scope string_scope.
 
@@ -127,6 +127,85 @@ Section Api.
       rb (Bip38.generate_private_key_ec b58_alph_btc b58_radix b58_cklen sha256 (o_nfc ask) o_utf8 o_scrypt o_aes_enc
             pt k1_base k1_smul k1_ser_c k1_deser o_p2pkh pass (vbool c) (lotseq_of ls) salt seedb) | _ => bad_call end)
   ].
+
+  (* ---- C20 *)
+  Definition k1_is_inf (p : pt) : bool := match p with [] => true | _ => false end.
+  Definition v1_wallet_of (kind : N) (b : list N) : res (Electrum.v1_wallet pt) :=
+    if N.eqb kind 0 then Electrum.v1_from_private_key pt b else Electrum.v1_from_public_key pt k1_deser b.
+  Definition o_p2pkh_u (p : pt) : list N := o_p2pkh p false.
+
+  (* Bip32 objects are opaque values [priv or empty; compressed pub; chain code; depth]; ckd is a reference oracle *)
+  Definition o_ckd (o : val) (i : N) : res val :=
+    match ask "bip32_ckd" [o; VN i] with
+    | VL [VN 0; c] => Ok c
+    | VL [VN 105; _] => Err (LibError Bip32KeyError)
+    | _ => Err (Foreign 3)
+    end.
+  Definition obj_depth (o : val) : N := match o with VL [_; _; _; VN d] => d | _ => 0%N end.
+  Definition obj_priv (o : val) : res (list N) :=
+    match o with VL [VB ((_ :: _) as k); _; _; _] => Ok k | _ => Err (LibError Bip32KeyError) end.
+  Definition obj_pub (o : val) : list N := match o with VL [_; VB p; _; _] => p | _ => [] end.
+  Definition o_addr_p2pkh (p : list N) : list N := o_bytes ask "p2pkh_btc_pub" [VB p].
+  Definition o_addr_p2wpkh (p : list N) : list N := o_bytes ask "p2wpkh_btc_pub" [VB p].
+  Definition idx_of (v : val) : option Electrum.idx_arg :=
+    match v with
+    | VL [VN 0; VZ z] => Some (Electrum.IdxInt z)
+    | VL [VN _; VN n] => Some (Electrum.IdxObj n)
+    | _ => None
+    end.
+  Definition v2_derived (wtype : N) (master : val) (c i : Electrum.idx_arg) : res val :=
+    if N.eqb wtype 0 then
+      m <- Electrum.v2_new val obj_depth master ;; Electrum.v2_std_derive val o_ckd m c i
+    else
+      acc <- Electrum.v2_segwit_new val o_ckd obj_depth master ;; Electrum.v2_segwit_derive val o_ckd acc c i.
+  Definition optn (v : val) : option N := match v with VL [VN n] => Some n | _ => None end.
+  Definition bw_algo_of (a : list val) : option Brainwallet.bw_algo :=
+    match a with
+    | [VN 0] => Some Brainwallet.BwSha256
+    | [VN 1] => Some Brainwallet.BwDoubleSha256
+    | [VN 2; VB salt; itr] => Some (Brainwallet.BwPbkdf2 salt (optn itr))
+    | [VN 3; VB salt; n; r; p] => Some (Brainwallet.BwScrypt salt (optn n) (optn r) (optn p))
+    | _ => None
+    end.
+  Definition o_sol_decode (t : list N) : res (list N) :=
+    match ask "sol_decode" [VB t] with VL [VN 0; VB b] => Ok b | _ => Err ValueError end.
+  Definition o_on_curve (b : list N) : bool := o_bool ask "ed25519_is_valid" [VB b].
+  Definition bytes_of (v : val) : list N := match v with VB b => b | _ => [] end.
+
+  Definition api_c20 : list api_entry := [
+  ("dec_str", fun a => match a with [VN n] => Ok (VB (Electrum.dec_str n)) | _ => bad_call end);
+  ("electrum_v1_priv", fun a => match a with [VN kind; VB b; VZ c; VZ i] =>
+      rb (w <- v1_wallet_of kind b ;; Electrum.v1_get_private_key sha256 pt k1_base k1_smul k1_ser_u w c i) | _ => bad_call end);
+  ("electrum_v1_pub", fun a => match a with [VN kind; VB b; VZ c; VZ i] =>
+      rb (w <- v1_wallet_of kind b ;;
+          p <- Electrum.v1_get_public_key sha256 pt k1_base k1_smul k1_add k1_is_inf k1_ser_u w c i ;; Ok (k1_ser_u p)) | _ => bad_call end);
+  ("electrum_v1_addr", fun a => match a with [VN kind; VB b; VZ c; VZ i] =>
+      rb (w <- v1_wallet_of kind b ;;
+          Electrum.v1_get_address sha256 pt k1_base k1_smul k1_add k1_is_inf k1_ser_u o_p2pkh_u w c i) | _ => bad_call end);
+  (* [wallet type 0 standard / 1 segwit; what 0 private key / 1 public key / 2 address; master object; change; index] *)
+  ("electrum_v2", fun a => match a with [VN wtype; VN what; master; c; i] =>
+      match idx_of c, idx_of i with
+      | Some c', Some i' =>
+        let d := v2_derived wtype master c' i' in
+        rb (if N.eqb what 0 then Electrum.v2_private_key val obj_priv d
+            else if N.eqb what 1 then Electrum.v2_public_key val obj_pub d
+            else if N.eqb wtype 0 then Electrum.v2_std_address val obj_pub o_addr_p2pkh d
+            else Electrum.v2_segwit_address val obj_pub o_addr_p2wpkh d)
+      | _, _ => bad_call
+      end | _ => bad_call end);
+  (* [curve class id for the validity test; passphrase; algorithm description ...] *)
+  ("brainwallet", fun a => match a with VN cls :: VB pass :: algo =>
+      match bw_algo_of algo with
+      | Some al => rb (Brainwallet.bw_generate sha256 (o_pbkdf2_sha512 ask) o_scrypt o_utf8 (o_priv_ok cls) al pass)
+      | None => bad_call
+      end | _ => bad_call end);
+  ("spl_find_pda", fun a => match a with [VL seeds; VB prog] =>
+      rb (SplToken.find_pda b58_alph_btc b58_radix sha256 o_on_curve o_sol_decode (map bytes_of seeds) prog) | _ => bad_call end);
+  ("spl_get_ata", fun a => match a with [VB wallet; VB mint] =>
+      rb (SplToken.get_ata b58_alph_btc b58_radix sha256 o_on_curve o_sol_decode wallet mint) | _ => bad_call end);
+  ("spl_get_ata_prog", fun a => match a with [VB wallet; VB mint; VB tp] =>
+      rb (SplToken.get_ata_with_program b58_alph_btc b58_radix sha256 o_on_curve o_sol_decode wallet mint tp) | _ => bad_call end)
+  ].
 End Api.
 
-Definition api (ask : string -> list val -> val) : list api_entry := api_c05 ask ++ api_c13 ask.
+Definition api (ask : string -> list val -> val) : list api_entry := api_c05 ask ++ api_c13 ask ++ api_c20 ask.
